@@ -74,7 +74,7 @@ func parseInt64(s string) int64 {
 	return v
 }
 
-func parseScenario(op string, args []string) cScenario {
+func cli_parseScenario(op string, args []string) cScenario {
 	sc := cScenario{v6: op == "client6"}
 	sc.T = parseInt64(fieldOf(args, "T"))
 	sc.n = int(parseInt64(fieldOf(args, "n")))
@@ -189,7 +189,7 @@ func (c cl6) close() error             { return c.c.Close() }
 func (c cl6) reqBytes(x uint32) []byte { return req6(x).ToBytes() }
 func (c cl6) destOK(a any) bool        { return a == any(clDest6) }
 
-func newClient(v6 bool, conn *scriptConn, T time.Duration, n, bufCap int) sendAndReader {
+func newClient(v6 bool, conn *cliScriptConn, T time.Duration, n, bufCap int) sendAndReader {
 	if v6 {
 		c, err := nclient6.NewWithConn(conn, clHW, nclient6.WithTimeout(T), nclient6.WithRetry(n))
 		if err != nil {
@@ -223,7 +223,7 @@ func runTimed(sc cScenario) cResult {
 		r.closeT = -1
 		start := time.Now()
 		now := func() int64 { return int64(time.Since(start)) }
-		conn := newScriptConn(now)
+		conn := cli_newScriptConn(now)
 		cl := newClient(sc.v6, conn, time.Duration(sc.T), sc.n, sc.cap)
 		want := cl.reqBytes(timedXid)
 		ctx, cancel := context.WithCancel(context.Background())
@@ -378,7 +378,7 @@ func (r cResult) canon() string {
 func execTimed(op string, args []string) string {
 	switch op {
 	case "client4", "client6":
-		return runTimed(parseScenario(op, args)).canon()
+		return runTimed(cli_parseScenario(op, args)).canon()
 	}
 	return "bad-op"
 }
